@@ -152,6 +152,15 @@ Plan genBuild(const std::string& prop, int tier, uint64_t batchSeed, uint64_t id
         op.set("cls", c).set("obj", static_cast<int64_t>(oi)).set("id", g.msgId());
         if (policy == 0 || r.chance(1, 10))
             op.set("fresh", 1);
+        if (r.chance(1, 8))
+        {
+            // the object is (re)born from wire bytes: lengths / DLC that need not match, possibly shorter than the header
+            op.set("fromwire", 1).set("wid", g.msgId()).set("wlen", static_cast<int64_t>(minLenOf(c)) + r.range(0, 40));
+            if (r.chance(1, 2))
+                op.set("wl1", static_cast<int64_t>(r.below(16))).set("wl2", static_cast<int64_t>(r.below(70)));
+            if (r.chance(1, 4))
+                op.set("wcut", r.range(0, static_cast<int64_t>(wire::fixedSize(static_cast<wire::Kind>(c))) + 2));
+        }
         if (r.chance(1, 2) || prevN[oi] < 0)
             op.set("hdr", 1).set("hseed", static_cast<int64_t>(r.next() >> 1));
         int64_t hi;
@@ -225,7 +234,10 @@ Plan genTecmp(const std::string& prop, int tier, uint64_t batchSeed, uint64_t id
             // the previous frame again with exactly ONE payload byte changed (caches keyed on too few bytes)
             Item prev = g.plan.items.back();
             prev.set("t", g.clock += 2);
-            prev.set("p1o", r.chance(2, 3) ? static_cast<int64_t>(r.below(20)) : static_cast<int64_t>(r.below(200))).set("p1v", static_cast<int64_t>(r.below(256)));
+            prev.set("p1o", r.chance(2, 3) ? static_cast<int64_t>(r.below(20)) : static_cast<int64_t>(r.below(200))).set("p1x", 1 + static_cast<int64_t>(r.below(255)));
+            prev.erase("p1v");
+            if (r.chance(1, 3))
+                prev.set("p2o", r.chance(2, 3) ? static_cast<int64_t>(r.below(20)) : static_cast<int64_t>(r.below(200))).set("p2x", prev.get("p1x"));  // the SAME mask on a second byte
             g.plan.items.push_back(prev);
             continue;
         }
@@ -257,7 +269,7 @@ Plan genStatus(const std::string& prop, int tier, uint64_t batchSeed, uint64_t i
     Rng& r = g.rng;
     g.cfg().set("rx", 1).set("status", 1);
     const bool many = r.chance(1, 8);  // beyond the small alphabets: vector growth / reallocation inside the tracker
-    const size_t nDev = many ? 5 + r.below(12) : 2 + r.below(3);
+    const size_t nDev = many ? 5 + r.below(20) : 2 + r.below(3);
     std::vector<int> devs;
     {
         std::set<int> s;
@@ -282,6 +294,18 @@ Plan genStatus(const std::string& prop, int tier, uint64_t batchSeed, uint64_t i
     const size_t nOps = (many ? 30 : 4) + r.below(tier ? 80 : 40);
     int lastRemovedDev = -1;
     std::map<int64_t, Item> lastStatus;
+    if (many)
+    {
+        // every device reports once first, so that the tracker really holds them all at the same time
+        for (size_t di = 0; di + 1 < nDev || di < nDev - (r.chance(1, 2) ? 0 : 1); ++di)
+        {
+            Item& op = g.addOp(OP_ENC, static_cast<int>(di + 1), 1);
+            op.set("min", 0).set("max", 1500).set("ver", 1).set("mode", 0);
+            Item m("m");
+            m.set("kind", wire::K_CMSTAT).set("len", static_cast<int64_t>(minLenOf(wire::K_CMSTAT)) + r.range(0, 20)).set("id", g.msgId()).set("ts", static_cast<int64_t>(di));
+            op.sub.push_back(std::move(m));
+        }
+    }
     for (size_t o = 0; o < nOps; ++o)
     {
         const uint64_t sel = r.below(100);
